@@ -12,7 +12,7 @@ from .basic_functions import (Operation as Op, Sequence, Function, argmin)
 from .utils import revolver_parameters
 
 
-def get_hopt_table(lmax, cvect, wvect, rvect, ub, uf):
+def get_hopt_table(lmax, cvect, wvect, rvect, uf, ub):
     """ Compute the optimal hierarchical execution time
     for the H-Revolve algorithm.
 
